@@ -2,7 +2,7 @@
 from pyvc.dsl import *
 
 
-@contract("json_to_models/registry.py::ModelFieldsEquals.cmp", props=["C05"])
+@contract("json_to_models/registry.py::ModelFieldsEquals.cmp", props=["C05", "C07"])
 class EqualsCmp:
     sorts = dict(fields_a="set", fields_b="set", result="bool")
 
@@ -10,7 +10,7 @@ class EqualsCmp:
         return {"exact": result == set_eq(fields_a, fields_b)}
 
 
-@contract("json_to_models/registry.py::ModelFieldsPercentMatch.cmp", props=["C05"])
+@contract("json_to_models/registry.py::ModelFieldsPercentMatch.cmp", props=["C05", "C07"])
 class PercentCmp:
     sorts = dict(fields_a="set", fields_b="set", result="bool")
 
@@ -22,7 +22,7 @@ class PercentCmp:
         return {"ratio": result == (card(fields_a & fields_b) >= self.percent_fields * card(fields_a | fields_b))}
 
 
-@contract("json_to_models/registry.py::ModelFieldsNumberMatch.cmp", props=["C05"])
+@contract("json_to_models/registry.py::ModelFieldsNumberMatch.cmp", props=["C05", "C07"])
 class NumberCmp:
     sorts = dict(fields_a="set", fields_b="set", result="bool")
 
@@ -30,7 +30,7 @@ class NumberCmp:
         return {"count": result == (card(fields_a & fields_b) >= self.number_fields)}
 
 
-@contract("json_to_models/registry.py::ModelRegistry._models_cmp_fn", props=["C05"])
+@contract("json_to_models/registry.py::ModelRegistry._models_cmp_fn", props=["C05", "C07"])
 class ModelsCmpFn:
     """'two models are similar iff at least one configured comparator accepts their key sets' (C05, statement)"""
     sorts = dict(model_a="obj:ModelMeta", model_b="obj:ModelMeta", result="bool", _type="dict")
